@@ -347,14 +347,35 @@ def runOpWith {α} (A : Arith α) (pv : String → Option α) (op : String) (rnd
   | "cmp", some [a, b] => toString (A.cmp a b)
   | _, _ => "BAD-INPUT"
 
+/-- operations that take a Python int operand or no rounding: on the raw stored integers of Fixed/Guarded -/
+def runOpInt (S : Int) (op : String) (args : List String) : Option String :=
+  match op, args.mapM String.toInt? with
+  | "neg", some [a] => some (toString (-a))
+  | "abs", some [a] => some (toString (a.natAbs : Int))
+  | "muli", some [a, n] => some (toString (a * n))
+  | "divi", some [a, n] => some (if n == 0 then "ZeroDivisionError" else toString (pdiv a n))
+  | "ofint", some [n] => some (toString (n * S))
+  | "min", some (a :: rest) => some (toString (rest.foldl (fun m y => if y < m then y else m) a))
+  | "bool", some [a] => some (if a != 0 then "1" else "0")
+  | _, _ => none
+
+def runOpRat (op : String) (args : List String) : Option String :=
+  let show' (q : Rat) : String := s!"{q.num}/{q.den}"
+  match op, args.mapM parseRat with
+  | "neg", some [a] => some (show' (-a))
+  | "abs", some [a] => some (show' (if a < 0 then -a else a))
+  | "min", some (a :: rest) => some (show' (rest.foldl (fun m y => if y < m then y else m) a))
+  | "bool", some [a] => some (if a != 0 then "1" else "0")
+  | _, _ => none
+
 def runOp (toks : List String) : String :=
   match toks with
   | arith :: p :: g :: op :: rnd :: args =>
     let r : Round := if rnd == "up" then .up else if rnd == "down" then .down else .unspecified
     match arith, p.toNat?, g.toNat? with
-    | "fixed", some p, _ => runOpWith (fixedArith p) String.toInt? op r args
-    | "guarded", some p, some g => runOpWith (guardedArith p g) String.toInt? op r args
-    | "rational", _, _ => runOpWith rationalArith parseRat op r args
+    | "fixed", some p, _ => (runOpInt (pow10 p) op args).getD (runOpWith (fixedArith p) String.toInt? op r args)
+    | "guarded", some p, some g => (runOpInt (pow10 (p + g)) op args).getD (runOpWith (guardedArith p g) String.toInt? op r args)
+    | "rational", _, _ => (runOpRat op args).getD (runOpWith rationalArith parseRat op r args)
     | _, _, _ => "BAD-INPUT"
   | _ => "BAD-INPUT"
 
